@@ -272,12 +272,28 @@ def k_eigh_trunc(ctx, spec):
     s0 = rng.choice([1, -1])
     tsb = {'sym': symn, 'fermionic': False, 's': [s0, -s0], 'legs': [leg, leg], 'n': list(cfg.sym.zero()) if cfg.sym.NSYM else [],
            'blocks': None, 'dtype': 'real', 'isdiag': False}
-    b = cat.build(ctx, tsb, 'b', config=cfg)
-    h = b + b.H
+    form = rng.choice(['plain', 'plain', 'meta'])
+    if form == 'meta':
+        # hermitian rank-4 tensor fused (meta) into a matrix: leg-addressed steps (apply_mask, Uaxis) on meta-fused + lazily transposed factors
+        leg2 = cat.rand_leg(rng, symn, nsect=(1, 2), dims=(1,))
+        ts4 = {'sym': symn, 'fermionic': False, 's': [s0, s0, -s0, -s0], 'legs': [leg, leg2, leg, leg2], 'n': list(cfg.sym.zero()) if cfg.sym.NSYM else [],
+               'blocks': None, 'dtype': 'real', 'isdiag': False}
+        b4 = cat.build(ctx, ts4, 'b4', config=cfg)
+        if b4.size > 24:
+            form = 'plain'
+        else:
+            h4 = b4 + b4.transpose((2, 3, 0, 1)).conj()
+            h = h4.fuse_legs(axes=((0, 1), (2, 3)), mode='meta')
+    if form == 'plain':
+        b = cat.build(ctx, tsb, 'b', config=cfg)
+        h = b + b.H
     which = spec['which']
     D_total = spec['D_total']
-    S, U = yastn.linalg.eigh_with_truncation(h, axes=(0, 1), which=which, D_total=D_total)
+    Uaxis = rng.choice([-1, 0, 1])
+    S, U = yastn.linalg.eigh_with_truncation(h, axes=(0, 1), which=which, D_total=D_total, Uaxis=Uaxis)
     S0, U0 = yastn.linalg.eigh(h, axes=(0, 1), which=which)
+    ctx.check(U.ndim == 2, 'eigh_trunc: U has the fused row leg and the new leg')
+    U = U.moveaxis(source=Uaxis, destination=-1)        # the new leg was requested at position Uaxis
     wellformed(ctx, S, 'eigh_trunc:S', check_dense_zero=False)
     wellformed(ctx, U, 'eigh_trunc:U', check_dense_zero=False)
     lS, lU = S.get_legs(0), U.get_legs(-1)
